@@ -182,7 +182,7 @@ class error_999_visitor(pyx12.error_visitor.error_visitor):
         ak1 = pyx12.segment.Segment('AK1', '~', '*', ':')
         ak1.set('01', self._echo(err_gs.fic))
         ak1.set('02', self._echo(err_gs.gs_control_num))
-        ak1.set('03', err_gs.vriic)
+        ak1.set('03', self._echo(err_gs.vriic))
         self.wr.Write(ak1)
 
     def __get_gs_errors(self, err_gs):
@@ -253,7 +253,7 @@ class error_999_visitor(pyx12.error_visitor.error_visitor):
         seg_data.set('02', self._echo(err_st.trn_set_control_num).strip())
         if err_st.vriic is not None:
             # AK203 echoes ST03, which the received set may legitimately omit
-            seg_data.set('03', err_st.vriic)
+            seg_data.set('03', self._echo(err_st.vriic))
         self.wr.Write(seg_data)
 
     def __get_st_errors(self, err_st):
